@@ -397,7 +397,7 @@ fn vreqs(case: &Value, m: &mut Map<String, Value>) {
 
 /// C17: Debug / Display of every public value that holds or is derived from key material.
 fn leakfn(case: &Value, m: &mut Map<String, Value>) {
-    use scratchstack_aws_signature::{GetSigningKeyRequest, GetSigningKeyResponse, KSecretKey, KeyTooLongError};
+    use scratchstack_aws_signature::{GetSigningKeyRequest, GetSigningKeyResponse, KSecretKey};
     use std::str::FromStr;
     let secret = get_bytes(case, "secret");
     m.insert("secret".into(), jbytes(&secret));
@@ -415,6 +415,11 @@ fn leakfn(case: &Value, m: &mut Map<String, Value>) {
             Err(e) => {
                 out.push(("KeyTooLongError.debug".into(), format!("{:?}", e)));
                 out.push(("KeyTooLongError.display".into(), format!("{}", e)));
+                // what a provider that propagates it with `?` hands back, and what the library makes of that
+                let boxed: tower::BoxError = Box::new(e);
+                let se = scratchstack_aws_signature::SignatureError::from(boxed);
+                out.push(("SignatureError(KeyTooLongError).debug".into(), format!("{:?}", se)));
+                out.push(("SignatureError(KeyTooLongError).display".into(), format!("{}", se)));
                 return (out, Vec::new());
             }
         };
@@ -443,7 +448,6 @@ fn leakfn(case: &Value, m: &mut Map<String, Value>) {
         }
         let req = GetSigningKeyRequest::builder().access_key("AKIDEXAMPLE").region("us-east-1").service("service").request_date(date).build();
         out.push(("GetSigningKeyRequest.debug".into(), format!("{:?}", req)));
-        out.push(("KeyTooLongError.display".into(), format!("{}", KeyTooLongError)));
         let keys = vec![
             ("kDate", kd.as_ref().to_vec()),
             ("kRegion", kr.as_ref().to_vec()),
